@@ -6,7 +6,8 @@
 //!
 //! * `.loop n { B }`      -> n copies `{ B[index := i] }`
 //! * `.if c { A } else { B }` -> the statements of the selected branch, spliced in place
-//! * `m(a, b)`            -> `{ .const p = (a) .const q = (b) body }` (definition removed)
+//! * `m(a, b)`            -> `.const argN_p = (a) .const argN_q = (b) { .const p = argN_p .const q = argN_q body }`
+//!   (definition removed; the arguments are evaluated where the invocation stands)
 //! * use of a user `.const` -> `(value)`
 //! * `{ }`, `l: { }`      -> unchanged
 //! * `.import … from "f" { block }` -> `impN: { block, statements of f }` followed by
@@ -1023,19 +1024,24 @@ impl<'a> Expander<'a> {
                         return Err("macro argument count".into());
                     }
                     let args: Vec<Expr> = args.iter().map(|a| self.xexpr(a)).collect::<Result<_, _>>()?;
-                    let mut used = vec![];
-                    args.iter().for_each(|a| idents_of(a, &mut used));
-                    if params.iter().any(|p| used.contains(p)) {
-                        return Err("macro parameter name occurs in an argument".into());
+                    // the arguments are evaluated where the invocation stands (names the body defines, or a
+                    // parameter of the same name, do not capture them): bound to constants with unique
+                    // names in front of the scope, which the parameters are then defined from
+                    self.imp_counter += 1;
+                    let n = self.imp_counter;
+                    for (p, a) in params.iter().zip(args.into_iter()) {
+                        out.push(Stmt::Const {
+                            name: format!("arg{}_{}", n, p),
+                            value: paren(a),
+                        });
                     }
                     let mut f = Frame::default();
                     f.params.extend(params.iter().cloned());
                     let mut inner: Vec<Stmt> = params
                         .iter()
-                        .zip(args.into_iter())
-                        .map(|(p, a)| Stmt::Const {
+                        .map(|p| Stmt::Const {
                             name: p.clone(),
-                            value: paren(a),
+                            value: id(&format!("arg{}_{}", n, p)),
                         })
                         .collect();
                     inner.extend(self.scope(f, &[body])?);
